@@ -163,7 +163,8 @@ func buildCorpus(c *fw.Ctx) *builtCorpus {
 	main := bc.mainSource()
 	os.MkdirAll(filepath.Join(bc.dir, "cmd", "run"), 0o755)
 	os.WriteFile(filepath.Join(bc.dir, "cmd", "run", "main.go"), []byte(main), 0o644)
-	cmd := exec.Command("go", "build", "-o", bc.bin, "./cmd/run")
+	// (-tags verif: gencheck uses csproto.VerifResetMsgTypeCache to replay the first use of a message type)
+	cmd := exec.Command("go", "build", "-tags", "verif", "-o", bc.bin, "./cmd/run")
 	cmd.Dir = bc.dir
 	if out, err := cmd.CombinedOutput(); err != nil {
 		c.BrokenProof = append(c.BrokenProof, "generated-code runner does not build: "+trunc(string(out), 400))
